@@ -249,6 +249,8 @@ for d in sorted(glob.glob(os.path.join(HERE, "seeded", "C*-*"))):
     rows.append("| %s | %s | %s |" % (sid, first.replace("|", "/"), status.replace("|", "/")))
 out = ["# Seeded changes (independent sub-agents; each confirmed by the lead in a scratch worktree)", "",
        "Run a check against one: `git -C /repo apply /verif/seeded/<id>/patch.diff; bin/check <Cxx> --tier quick --no-evidence; git -C /repo checkout -- .` (absolute path: `git -C` resolves relative paths inside /repo)", "",
+       "Each patch applies to the repository head recorded in its meta.json (`confirmed_by_lead.repo_head`); all but C06-3 and C06-4 "
+       "also apply to the current head (those two touch lines that the later `fix:` commit e4823e9 rewrote).", "",
        "| seed | change (first line of the seeder's README) | quick-tier result of the registered check(s) |", "|---|---|---|"] + rows
 open(os.path.join(HERE, "seeded", "LEDGER.md"), "w").write("\n".join(out) + "\n")
 print(len(rows), "seeds;", sum("NOT caught" in r for r in rows), "not caught")
